@@ -109,12 +109,14 @@ InitState(k, b, h) ==
    moment later (crash in its shutdown path), donesig dies by a signal a moment later; sleep / ignore / fork outlive
    the grace period and have to be signalled; nodone refuses EXIT (never reaches DONE) and exits 3 on TERM *)
 BehsOf(k) == IF k = "ctl" THEN Behs \cap {"sleep", "ignore", "fork", "exit0", "exit3", "noready", "stuck",
-                                          "done0", "done3", "donesig", "nodone", "fmq", "midstate"}
+                                          "done0", "done3", "donesig", "nodone", "fmq", "midstate", "resetstuck"}
                           ELSE Behs \cap {"sleep", "ignore", "fork", "exit0", "exit3", "crash"}
 (* fmq: a FairMQ device (control mode FAIRMQ), otherwise like sleep; midstate: a FairMQ device that, once it was seen
    IDLE and the task reported RUNNING, sits in an intermediate FairMQ state (GetState maps it to no state at all:
    nextTransition yields an empty event, the walk to DONE stops there) *)
 Walkable(d) == d \notin {"INIT", "MID"}
+(* resetstuck: a FairMQ device whose RESET DEVICE fails by staying in DEVICE READY (the roll-back INIT TASK brings it
+   back to READY): a Kill that finds it CONFIGURED or RUNNING cannot walk it further down than CONFIGURED *)
 
 (* ----- the instant of the child's life, from what has been observable so far ----- *)
 Has(q, x) == \E i \in 1..Len(q) : q[i] = x
@@ -370,6 +372,8 @@ DoKBody(s, i) ==
                   other == \E j \in 1..Len(s.hs) : j # i /\ s.hs[j].r = "Kill"
               IN IF Listening(s) /\ s.beh = "nodone"
                    THEN {[broke EXCEPT !.dev = "STANDBY"]}         \* STOP / RESET obeyed, EXIT refused
+                 ELSE IF Listening(s) /\ s.beh = "resetstuck" /\ s.dev \in {"CONFIGURED", "RUNNING"}
+                   THEN {[broke EXCEPT !.dev = "CONFIGURED"]}      \* STOP obeyed, RESET fails (answered with an error)
                  ELSE IF Listening(s) /\ Walkable(s.dev)
                    THEN IF other THEN {walked, [broke EXCEPT !.dev = "DONE"]} ELSE {walked}
                    ELSE IF maybe THEN {walked, broke} ELSE {broke}
